@@ -47,7 +47,7 @@ typedef struct rec_s {
     uint32_t bodyhash[2][64]; long bodylen[2][64];
     char cborder[64][256]; int cbolen[64];
     long ncb, maxcb;
-    int stall;
+    int stall, fault_reported;
 } rec_t;
 
 static __thread rec_t *R;
@@ -403,6 +403,17 @@ static size_t unhex(const char *s, unsigned char **out) {
 
 static void emit_ret(rec_t *r, int d, const char *rcname, long consumed) {
     htp_connp_t *g = r->connp;
+    /* what a careful caller reads after every call: the last error record and the connection's message list (C18) */
+    htp_log_t *le = htp_connp_get_last_error(g);
+    unsigned lsum = 0;
+    if (le != NULL && le->msg != NULL) for (const char *c = le->msg; *c; c++) lsum += (unsigned char) *c;
+    if (g->conn != NULL && g->conn->messages != NULL)
+        for (size_t i = 0, n = htp_list_size(g->conn->messages); i < n; i++) { htp_log_t *m = htp_list_get(g->conn->messages, i); if (m && m->msg) lsum += (unsigned char) m->msg[0]; }
+    if (vf_fail_at > 0 && vf_count >= vf_fail_at && !r->fault_reported) {
+        r->fault_reported = 1;
+        fprintf(r->out, "{\"e\":\"Fault\",\"fn\":\"%s\",\"ex\":\"%s\",\"lsum\":%u}\n", vf_fail_fn, "", lsum & 0xffff);
+        fflush(r->out);
+    }
     fprintf(r->out, "{\"e\":\"Ret\",\"d\":\"%s\",\"rc\":\"%s\",\"consumed\":%ld,\"ist\":\"%s\",\"ost\":\"%s\",\"ntx\":%zu,\"onti\":%zu,\"in_tx\":%ld,\"out_tx\":%ld,"
             "\"ibuf\":%zu,\"ihdr\":%zu,\"obuf\":%zu,\"ohdr\":%zu,\"inc\":%ld,\"outc\":%ld,\"live\":%ld,\"liveb\":%ld,\"allocs\":%ld}\n",
             d == 0 ? "req" : d == 1 ? "res" : "both", rcname, consumed, stn(g->in_status), stn(g->out_status),
@@ -436,7 +447,7 @@ static void run_scenario(rec_t *r, char **lines, int nl, const char *name, int p
     memset(r->expq, 0, sizeof r->expq); memset(r->exps, 0, sizeof r->exps);
     memset(r->bodyhash, 0, sizeof r->bodyhash); memset(r->bodylen, 0, sizeof r->bodylen);
     memset(r->cbolen, 0, sizeof r->cbolen); for (int i = 0; i < 64; i++) r->cborder[i][0] = 0;
-    r->off[0] = r->off[1] = 0; r->pid = pid; g_serial = 0;
+    r->off[0] = r->off[1] = 0; r->pid = pid; g_serial = 0; r->fault_reported = 0;
     for (int i = 0; i < nl; i++) {
         char *l = lines[i];
         if (l[0] == 'K') { strncat(kline, l + 1, sizeof kline - strlen(kline) - 2); size_t m = strlen(kline); if (m && kline[m - 1] == '\n') kline[m - 1] = ' '; }
@@ -472,6 +483,7 @@ static void run_scenario(rec_t *r, char **lines, int nl, const char *name, int p
     int created = r->connp != NULL;
     if (created) htp_connp_open(r->connp, "1.1.1.1", 1000, "2.2.2.2", 80, NULL);
     fprintf(r->out, "{\"e\":\"Open\",\"ok\":%s}\n", created ? "true" : "false");
+    if (vf_fail_at > 0 && vf_count >= vf_fail_at) { r->fault_reported = 1; fprintf(r->out, "{\"e\":\"Fault\",\"fn\":\"%s\",\"ex\":\"\",\"lsum\":0}\n", vf_fail_fn); }
     /* pass 2: arrivals */
     static __thread chunk_t *q[2]; static __thread int qcap;
     if (!q[0]) { qcap = 1 << 16; q[0] = malloc(sizeof(chunk_t) * qcap); q[1] = malloc(sizeof(chunk_t) * qcap); }
@@ -535,6 +547,8 @@ static void run_scenario(rec_t *r, char **lines, int nl, const char *name, int p
     long ntx = created ? (long) htp_list_size(r->connp->conn->transactions) : 0;
     if (created) htp_connp_destroy_all(r->connp);
     if (r->cfg) htp_config_destroy(r->cfg);
+    if (vf_fail_at > 0 && vf_count >= vf_fail_at && !r->fault_reported) fprintf(r->out, "{\"e\":\"Fault\",\"fn\":\"%s\",\"ex\":\"\",\"lsum\":0}\n", vf_fail_fn);
+    vf_fail_at = -1;
     r->connp = NULL; r->cfg = NULL;
     for (int i = 0; i < 64; i++) { free(r->expq[i].p); free(r->exps[i].p); r->expq[i].p = r->exps[i].p = NULL; }
     fprintf(r->out, "{\"e\":\"End\",\"live\":%ld,\"san\":false,\"what\":\"\",\"stall\":%s,\"leftq\":%ld,\"lefts\":%ld,\"closed\":%s,\"ntx\":%ld,\"nser\":%ld,\"ncb\":%ld,\"allocs\":%ld,\"failfn\":\"%s\"}\n",
